@@ -17,7 +17,7 @@ RULE = ("MazeDataset.generate / from_config over generator x kwargs (the 8 DEFAU
         "grid 2..8,12 (some 16, 20) x n_mazes {0,1,3,8,32} (some 130, 260) x seeds x endpoint-option sets (none; allowed start/end lists of size 1,2,many incl. "
         "cells outside the component; dead-end flags; endpoints_not_equal; combinations), serially and in parallel with processes "
         "in {1,2,3,5,8,16} and maxtasksperchild in {None,1,2}; a PY_START probe inherited by the forked workers injects 0-3 ms "
-        "jitter into _generate_maze_helper and logs (pid, index), so task->worker schedules vary and are recorded. Also from_config with its default caching for configurations that share one cache directory and differ only in the maze count. Every item is "
+        "jitter into _generate_maze_helper and logs (pid, index), so task->worker schedules vary and are recorded. Also from_config with its default caching for configurations that share one cache directory and differ only in the maze count. Also parallel generation under the spawn and forkserver start methods (fresh interpreters) and a 131x131 grid serial and parallel. Every item is "
         "judged against an adjacency-set model (kind, shape, walk along connections, no repeated cell, BFS-shortest, ends agree, "
         "options honoured). non-trivial & distinct = distinct (config, index, connection_list, solution) items with >= 2 cells")
 ASSUMPTIONS = ["ValueError (no valid endpoints / one-cell component) and the grid_n=1 assertion are documented rejections",
@@ -27,7 +27,7 @@ THRESHOLDS = {"quick": {
     "c03:datasets": 300, "c03:items": 2500, "c03:parallel-runs": 20, "c03:distinct-schedules?c03:schedule-probe-attached": 10, "c03:opt:allowed_start": 100,
     "c03:opt:allowed_end": 100, "c03:opt:deadend_start:nontrivial": 100, "c03:opt:deadend_end:nontrivial": 100,
     "c03:opt:endpoints_not_equal": 100, "c03:opt:deadend+allowed-same-endpoint:nontrivial": 30, "c03:opt:none": 500, "c03:equal-endpoints-allowed-and-seen": 5, "c03:empty-dataset": 5,
-    "c03:from_config": 30, "c03:shared-cache-requests": 12, "c03:many-mazes": 20, "c03:large-grid": 15, "c03:worker-pids?c03:schedule-probe-attached": 30,
+    "c03:from_config": 30, "c03:shared-cache-requests": 12, "c03:start-method-datasets": 4, "c03:huge-grid-datasets": 2, "c03:many-mazes": 20, "c03:large-grid": 15, "c03:worker-pids?c03:schedule-probe-attached": 30,
     "hits:_generate_maze_helper?c03:schedule-probe-attached": 1000,
 }}
 THRESHOLDS["thorough"] = {**THRESHOLDS["quick"], "c03:datasets": 4000, "c03:parallel-runs": 300, "c03:distinct-schedules?c03:schedule-probe-attached": 100}
@@ -267,6 +267,73 @@ def run(ctx):
             ctx.sample(dict(case=case, n_items=len(ds)))
     ctx.tally("c03:distinct-schedules", len(schedules))
     _shared_cache(ctx, MazeDataset, MazeDatasetConfig, GENERATORS_MAP)
+    _other_start_methods(ctx)
+    _huge_grid(ctx, MazeDataset, MazeDatasetConfig, GENERATORS_MAP)
+
+
+def _other_start_methods(ctx):
+    """parallel generation in interpreters whose multiprocessing start method is spawn / forkserver (the defaults on macOS and
+    Windows / newer Pythons): workers there do not inherit the parent's module state, they only get what is sent to them"""
+    import json
+    import subprocess
+
+    from ..core import VERIF_ROOT
+    from ..runner import PY, shard_env
+
+    for mi, method in enumerate(("spawn", "forkserver")):
+        if not ctx.mine(3 + 5 * mi):
+            continue
+        specs = [dict(name=f"c03-{method}-a", gen="gen_dfs", kwargs={}, grid_n=5, n_mazes=10, seed=3, processes=2,
+                      opts=dict(deadend_start=True, deadend_end=True, endpoints_not_equal=True)),
+                 dict(name=f"c03-{method}-b", gen="gen_dfs_percolation", kwargs=dict(p=0.2), grid_n=4, n_mazes=9, seed=4, processes=3,
+                      opts=dict(allowed_start=[[0, 0], [3, 3]], allowed_end=[[0, 3], [3, 0], [1, 1]], endpoints_not_equal=True)),
+                 dict(name=f"c03-{method}-c", gen="gen_wilson", kwargs={}, grid_n=3, n_mazes=7, seed=5, processes=2, opts={})]
+        try:
+            p = subprocess.run([PY, "-m", "vmon.c03_child", method], input=json.dumps(specs), capture_output=True, text=True,
+                               env=shard_env(), cwd=VERIF_ROOT, timeout=900)
+        except subprocess.TimeoutExpired:
+            ctx.tally("c03:start-method-child-timeout(not judged)")
+            continue
+        if p.returncode != 0 or "{" not in p.stdout:
+            ctx.tally("c03:start-method-child-failed(not judged)")
+            ctx.note(f"c03 child ({method}) failed: {p.stderr[-400:]}")
+            continue
+        r = json.loads(p.stdout[p.stdout.rindex("{\"tallies\""):])
+        ctx.ev(r["tallies"].get("c03:items", 0)); ctx.tally(f"c03:start-method:{method}:items", r["tallies"].get("c03:items", 0))
+        ctx.tally("c03:start-method-datasets", r["tallies"].get("datasets", 0))
+        for v in r["violations"]:
+            ctx.violation(v["mechanism"], f"[parallel generation, multiprocessing start method {method}] " + v["detail"], v["case"])
+
+
+def _huge_grid(ctx, MazeDataset, MazeDatasetConfig, GENERATORS_MAP):
+    """a grid with more than 127 cells a side, serial and parallel: coordinates past the int8 range in solutions"""
+    for k, parallel in enumerate((False, True)):
+        if not ctx.mine(7 + k):
+            continue
+        g_n = 131
+        opts = dict(allowed_start=[(0, 0)], allowed_end=[(g_n - 1, g_n - 1)])
+        case = dict(kind="huge-grid", grid_n=g_n, parallel=parallel, cfg_key=f"huge-{parallel}", endpoint_kwargs=opts)
+        try:
+            with warnings.catch_warnings():
+                warnings.simplefilter("ignore")
+                cfg = MazeDatasetConfig(name="c03-huge", grid_n=g_n, n_mazes=2, maze_ctor=GENERATORS_MAP["gen_dfs"], maze_ctor_kwargs={},
+                                        endpoint_kwargs=dict(opts), seed=9)
+                signal.alarm(600)
+                try:
+                    ds = MazeDataset.generate(cfg, gen_parallel=parallel, pool_kwargs=dict(processes=2) if parallel else None)
+                finally:
+                    signal.alarm(0)
+        except _Timeout:
+            ctx.tally("c03:parallel-timeout")
+            continue
+        except Exception as ex:  # noqa: BLE001
+            import traceback
+            ctx.violation(f"C03/generate/exception/{type(ex).__name__}", traceback.format_exc()[-1200:], case)
+            continue
+        ctx.ev(); ctx.tally("c03:huge-grid-datasets")
+        ctx.check(len(ds) == 2, "C03/wrong-number-of-mazes", f"len={len(ds)}", case)
+        for idx in range(len(ds)):
+            check_item(ctx, ds[idx], g_n, opts, dict(case, index=idx))
 
 
 def _shared_cache(ctx, MazeDataset, MazeDatasetConfig, GENERATORS_MAP):
